@@ -495,6 +495,10 @@ class ShortTimeFourierTransformFrameComputer(LinearFilterBankFrameComputer):
             frame_length = self._frame_length
         frame_shift = self._frame_shift
         num_frames = max(0, (total_len - frame_length) // frame_shift + 1)
+        if noncausal_first and total_len < self._frame_length // 2 + 1:
+            # compute_full returns nothing for a signal this short. Hold on to the
+            # samples until we know that it's longer
+            num_frames = 0
         coeffs = np.empty((num_frames, self.num_coeffs), dtype=self._chunk_dtype)
         for frame_idx in range(num_frames):
             frame_start_idx = frame_idx * frame_shift
@@ -536,7 +540,7 @@ class ShortTimeFourierTransformFrameComputer(LinearFilterBankFrameComputer):
             self._first_frame = False
         self._num_emitted += num_frames
         rem_len = total_len - num_frames * frame_shift
-        assert rem_len < frame_length
+        assert rem_len < self._frame_length
         if rem_len > 0:
             throw_away = total_len - rem_len
             if throw_away < buf_len:
